@@ -6,6 +6,7 @@ import NutilsVerif.Proofs.C12BSpline
 import NutilsVerif.Generated.C12
 import NutilsVerif.Proofs.C12Knots
 import NutilsVerif.Proofs.C12Vs
+import NutilsVerif.Proofs.C12Slice
 /-!
 # C12 — property theorems (statements about the executable model in `Model/C12.lean`)
 -/
@@ -413,5 +414,51 @@ regenerated on every run for the line, triangle, tetrahedron, square and cube): 
 the constant one. -/
 theorem bernstein_table_pou : ∀ t ∈ Generated.bernsteinTables, tablePou t.2.2 = true := by
   decide +kernel
+
+/-! ## `Basis.__getitem__` with a slice -/
+
+/-- **`Basis.__getitem__(slice)`, positive step** (property clause: "a masked basis contains exactly the selected functions").
+For every length `n` and every slice with a positive step the result is the basis itself or a `MaskedBasis`, never anything else;
+its content `idx` (parent dofs, in order; the basis itself = `range n`) is strictly increasing and in range — the precondition
+of `MaskedBasis` — and contains exactly the indices Python slicing selects: `a ≤ i < b`, `i ≡ a (mod step)` with `(a, b, step) =
+slice.indices(n)`.  In particular the "nothing to mask" shortcut is only taken when every function is selected. -/
+theorem getitem_slice_content (n : Nat) (st sp se : Option Int) (a b s : Int)
+    (h : sliceIndices n st sp se = some (a, b, s)) (hs : 0 < s) :
+    ∃ idx, (basisGetSlice n st sp se).content n = some idx ∧ idx.Pairwise (· < ·) ∧ (∀ i ∈ idx, i < n) ∧
+      ∀ i : Nat, i ∈ idx ↔ (a ≤ i ∧ (i : Int) < b ∧ ((i : Int) - a) % s = 0) := by
+  obtain ⟨ha0, han, hb0, hbn⟩ := sliceIndices_pos_bounds h hs
+  unfold basisGetSlice
+  rw [h]
+  simp only
+  split
+  · rename_i hself
+    obtain ⟨rfl, rfl, rfl⟩ := hself
+    refine ⟨List.range n, rfl, List.pairwise_lt_range, fun i hi => List.mem_range.mp hi, fun i => ?_⟩
+    simp only [List.mem_range]
+    constructor
+    · intro hi; refine ⟨by omega, by omega, ?_⟩; simp
+    · rintro ⟨_, h2, _⟩; omega
+  · refine ⟨arangeUp a b s, rfl, arangeUp_pairwise ha0 hs, fun i hi => ?_, fun i => mem_arangeUp ha0 hs i⟩
+    have := (mem_arangeUp ha0 hs i).mp hi
+    omega
+
+/-- a slice with step 0 is refused, a negative step is not a `Basis` any more (generic `Array` indexing) -/
+theorem getitem_slice_other (n : Nat) (st sp se : Option Int) :
+    (se = some 0 → basisGetSlice n st sp se = .valueError) ∧
+    (∀ s, se = some s → s < 0 → basisGetSlice n st sp se = .generic) := by
+  constructor
+  · rintro rfl; simp [basisGetSlice, sliceIndices]
+  · rintro s rfl hs
+    have h0 : s ≠ 0 := by omega
+    have h1 : ¬ (s = 1) := by omega
+    have h2 : ¬ (s > 0) := by omega
+    simp [basisGetSlice, sliceIndices, h0, h1, h2]
+
+/-- the hypotheses of `getitem_slice_content` are satisfiable -/
+example : sliceIndices 7 none none (some 2) = some (0, 7, 2) ∧ (0 : Int) < 2 := by decide
+example : basisGetSlice 7 none none (some 2) = .masked [0, 2, 4, 6] := by decide
+example : basisGetSlice 7 none none none = .self := by decide
+example : basisGetSlice 7 (some 1) (some (-1)) none = .masked [1, 2, 3, 4, 5] := by decide
+example : basisGetSlice 7 (some (-20)) (some 20) (some 3) = .masked [0, 3, 6] := by decide
 
 end NutilsVerif.C12
